@@ -41,7 +41,7 @@ def _transform_hook():
         moved = OpaqueNode(moved_from=cell_key, by=tuple(transform))
         src = conv.dic_cell_mcnp[cell_key]
         conv.dic_cell_mcnp[new_key] = _cell(src.materialID, src.density, moved, src.universe, src.fillid, src.filltr,
-                                            src.trcl, src.idorigin)
+                                            src.trcl, src.idorigin, imp=src.importance)
         it.p.calls.append({'callee': 'cell_transform', 'args': [cell_key, tuple(transform), cache], 'kw': {},
                            'result': new_key})
         return new_key
@@ -61,7 +61,7 @@ def _fill_cases():
                            filltr, trcl, inline_filled, inline_filling, origin)
 
 
-@contract(CellConversion.pot_fill, props=['C05', 'C09', 'C13'], name='CellConversion.pot_fill')
+@contract(CellConversion.pot_fill, props=['C05', 'C09', 'C13', 'C12'], name='CellConversion.pot_fill')
 class _PotFill:
     native = False
     hooks = {CellConversion.cell_transform: _transform_hook()}
@@ -76,10 +76,10 @@ class _PotFill:
         o_cont = [(77, 5)] if origin == 'already-developed' else None
         o_e1 = [(88, 66)] if origin == 'already-developed' else None
         cells = {
-            10: _cell('0', None, g_cont, 0, 3, filltr, trcl, o_cont),
-            31: _cell('4', '-2.5', g_e1, 3, None, (), None, o_e1),
-            32: _cell('0', None, g_e2, 3, 4, (), None),            # a filler cell that is itself filled (nested)
-            41: _cell('7', '1.0', g_n, 4, None, (), None),
+            10: _cell('0', None, g_cont, 0, 3, filltr, trcl, o_cont, imp=3.0),
+            31: _cell('4', '-2.5', g_e1, 3, None, (), None, o_e1, imp=0.0),
+            32: _cell('0', None, g_e2, 3, 4, (), None, imp=2.0),   # a filler cell that is itself filled (nested)
+            41: _cell('7', '1.0', g_n, 4, None, (), None, imp=0.0),
             50: _cell('9', '-9.0', OpaqueNode(tag='other'), 5, None, (), None),
         }
         conv = new_conv(cells=cells, cell_key=100)
@@ -98,6 +98,9 @@ class _PotFill:
         for new_key, filler_label in zip(res, ('filler-cell-31', 'developed-nested-filler')):
             c = dic[new_key]
             yield f'{filler_label}:fill-cleared', c.fillid is None
+            # C12: whether a developed cell is written is decided by the importance of the level-0 container (here
+            # 3.0), never by the importances (0.0 / 2.0) found inside the filling universes
+            yield f'{filler_label}:importance-and-universe-of-the-container', (c.importance, c.universe) == (3.0, 0)
             # the filler the new cell was made from: 31 itself, or the cell pot_fill made from (32 filled by 41)
             part = c.geometry
             yield f'{filler_label}:is-an-intersection-of-two', (isinstance(part, tuple) and len(part) == 3
